@@ -318,6 +318,7 @@ psgstrf_column_dfs(
 	xlsub[jcol] = ito;
 #ifdef SLU_MT_VERIF
 	SLUV_EVENT(SLUV_E_LSUB_ALLOC, pnum, jcol, ito, 2*no_lsub, 0, 0);
+	SLUV_YIELD(SLUV_Y_LSUB_FILL);
 #endif /* SLU_MT_VERIF */
 	lsub = Glu->lsub;
 	for (ifrom = 0; ifrom < nextl; ++ifrom) {
